@@ -92,6 +92,24 @@ def interp_knots(ctx):
              construct='x-coordinates of the beat interpolation', definite=True)
 
 
+def _twin_of_param(fn, src, dst, param):
+  """src is the argument's counterpart of dst: the parameter itself against a local copy, or two loop variables bound by one
+  zip(...) over the same repeated field of the copy and of the parameter."""
+  if isinstance(src, ast.Name) and src.id == param and isinstance(dst, ast.Name) and dst.id != param:
+    return True
+  if isinstance(src, ast.Name) and isinstance(dst, ast.Name):
+    for n in ast.walk(fn):
+      gens = [(n.target, n.iter)] if isinstance(n, ast.For) else [(g.target, g.iter) for g in getattr(n, 'generators', [])]
+      for tg, it in gens:
+        if isinstance(it, ast.Call) and dotted(it.func) == 'zip' and isinstance(tg, ast.Tuple) and len(tg.elts) == len(it.args):
+          names = [e.id if isinstance(e, ast.Name) else None for e in tg.elts]
+          if src.id in names and dst.id in names:
+            a_s, a_d = it.args[names.index(src.id)], it.args[names.index(dst.id)]
+            if isinstance(a_s, ast.Attribute) and isinstance(a_d, ast.Attribute) and a_s.attr == a_d.attr and isinstance(a_s.value, ast.Name) and a_s.value.id == param:
+              return True
+  return False
+
+
 def _exclusive(fn, a, b):
   """a and b sit in different arms of one if statement (or a is b)."""
   if a is b:
@@ -133,6 +151,12 @@ def uniform(ctx, name, ptypes, consts, tpaths, op, operand, extra=None, extra_al
           return (nm, norm_text(w.value.right))
         if norm_text(w.value.right) == t and isinstance(w.value.op, (ast.Add, ast.Mult)):
           return (nm, norm_text(w.value.left))
+        # the same update computed from the argument's twin field: copy.f = argument.f <op> e (the copy starts equal to the argument;
+        # elements paired with zip(copy.xs, argument.xs) are twins too)
+        tgt = w.stmt.targets[0]
+        for a_, b_ in ((w.value.left, w.value.right),) + (((w.value.right, w.value.left),) if isinstance(w.value.op, (ast.Add, ast.Mult)) else ()):
+          if isinstance(a_, ast.Attribute) and isinstance(tgt, ast.Attribute) and a_.attr == tgt.attr and _twin_of_param(fi.node, a_.value, tgt.value, param):
+            return (nm, norm_text(b_))
       return (w.op, norm_text(w.value) if w.value is not None else None)
     hits = [w for w in bp.get(p, []) if as_aug(w) == (wop, wopd)]
     ok = bool(hits)
